@@ -108,8 +108,8 @@ def gen_case(rng, kind='valid'):
     else:
         ln = case['lines'][0]
         if not any(e['k'] == 'R' for l2 in case['lines'] for e in l2['els']):
-            ln['els'] = [c08.gen_amp(rng, 'amp r0', sp['power_mode'], before_raman=True),
-                         c08.gen_fiber(rng, 'raman r1', sp['max_length'], raman=True)] + [e for e in ln['els'] if e['k'] == 'F'][:1]
+            head = [c08.gen_amp(rng, 'amp r0', sp['power_mode'], before_raman=rng.random() < 0.5)] if rng.random() < 0.5 else []
+            ln['els'] = head + [c08.gen_fiber(rng, 'raman r1', sp['max_length'], raman=True)] + [e for e in ln['els'] if e['k'] == 'F'][:1]
     case['simparams'] = gen_simparams(rng) if rng.random() < 0.5 else None
     if kind == 'raman':
         # the settings in force when a Raman span is designed: never the defaults
@@ -173,9 +173,30 @@ def fix_f22():
 
 # F20 (design_span_loss counted att_in twice) and F21 (automatic VOA above the head-room) were repaired in /repo
 # (13a35c31, 99151283): their streams ('att_in', 'voa_margin') stay as regression streams without a matcher.
+@contextlib.contextmanager
+def fix_f23():
+    """an estimate made without a span input power (target_power, add_fiber_padding) is not cached as the fibre's
+    estimated_gain: the cached value is the one made at the power of the amplifier walk"""
+    import gnpy.core.network as N
+    from gnpy.core import elements as E
+    orig = N.estimate_raman_gain
+
+    def estimate_raman_gain(node, equipment, power_dbm):
+        fresh = isinstance(node, E.RamanFiber) and power_dbm is None and not hasattr(node, 'estimated_gain')
+        g = orig(node, equipment, power_dbm)
+        if fresh and hasattr(node, 'estimated_gain'):
+            del node.estimated_gain
+        return g
+    N.estimate_raman_gain = estimate_raman_gain
+    try:
+        yield
+    finally:
+        N.estimate_raman_gain = orig
+
+
 # F8 (single design band dropped) and F19 (lumped losses not exported) were repaired too (37844749, 562b868b):
 # the 'lumped' stream and the multiband example stay as regressions that must pass.
-FIX_CTX = {'F22': fix_f22}
+FIX_CTX = {'F22': fix_f22, 'F23': fix_f23}
 
 
 # ------------------------------------------------------------------ driving the implementation
@@ -327,7 +348,7 @@ def attribute(case, pair):
     import itertools
     cands = ['F7'] if case['span'].get('EOL') else []
     if any(e['k'] == 'R' for ln in case.get('lines', []) for e in ln['els']):
-        cands.append('F22')
+        cands += ['F22', 'F23']
     for size in (1, 2):
         for sub in itertools.combinations(cands, size):
             r = roundtrip(case, fixes=sub, propagate_pair=pair)
@@ -382,7 +403,8 @@ def line_amp_term(case, ob, ln, cfg):
     nch = int((si.get('f_max', 195.1e12) - si.get('f_min', 191.3e12)) // 50e9)
     ptot = pref + 10 * math.log10(nch)
     order_flag = True
-    term = (f'run_amps ({c08.cfg_term(cfg)}) ({s}) {listlit(lib)} {listlit(sel)} {listlit(rg)} {listlit(ops)} '
+    rg1 = [(u, round(g, 2)) for u, g in ob['rgain'].items()]
+    term = (f'run_amps ({c08.cfg_term(cfg, rg1)}) ({s}) {listlit(lib)} {listlit(sel)} {listlit(rg)} {listlit(ops)} '
             f'{qlit(d0)} {qlit(ptot)} ({c08.line_term(ln, order_flag)})')
     return term, amps
 
@@ -542,8 +564,7 @@ def mk_matcher(cause):
 MATCHERS = {
     'F7-eol-readded': mk_matcher('F7'),
     'F22-raman-estimate-ignores-out-voa': mk_matcher('F22'),
-    'F15-raman-span-loss-without-power': lambda v: (v['key'] == 'redesign_raises' and v.get('detail', {}).get('exc_type') == 'TypeError'
-                                                     and v.get('detail', {}).get('raman_gain_mode') is True),
+    'F23-raman-estimate-cached-at-first-call': mk_matcher('F23'),
 }
 
 
